@@ -25,7 +25,7 @@ def all_splits(n):
 
 
 UNOPS = ['once', 'hist', 'not', 'abs', 'neg', 'sqrt']       # index = the `kind` of the driver command onlun
-BINOPS = ['and', 'or', 'sub', 'add', 'implies', 'iff', 'xor']      # index = the `op` of the driver commands oisect / binrun (Run.bin_f)
+BINOPS = ['and', 'or', 'sub', 'add', 'implies', 'iff', 'xor', 'mul', 'div', 'pow']      # index = the `op` of the driver commands oisect / binrun (Run.bin_f)
 
 
 def gen_online_signal(rng, bad, infs):
@@ -173,10 +173,17 @@ class C05(Check):
         # bin_run_e (theorems C05_binary_merge / C05_binary_run / C05_binary_chunking), list for list, buffers and last_output included
         nm = 400 if tier == 'quick' else 8000
         for i in range(nm):
-            op = rng.choice(BINOPS)
+            # (multiplication_operation.py forgets last_output at every update: it has its own model, DenseOnlineMon.mul_update_g, exercised by the monitor stream)
+            op = rng.choice([o for o in BINOPS if o != 'mul'] + ['div', 'pow'])
             infs = op in ('and', 'or', 'implies')        # inf - inf is not a number
             bad = rng.random() < 0.15
             a, b = gen_online_signal(rng, bad, infs), gen_online_signal(rng, bad and rng.random() < 0.5, infs)
+            if op == 'div':
+                # exact quotients: multiples of 4 over divisors of 4
+                a = [[t, 4 * v] for t, v in a]
+                b = [[t, [1, 2, -1, -2, 4, -4, 1][v + 3]] for t, v in b]
+            elif op == 'pow':
+                b = [[t, abs(v)] for t, v in b]
             if i % 2 == 0:
                 cases.append({'omerge': op, 'a': a, 'b': b, 'n': 0})
             else:
